@@ -20,7 +20,7 @@ WATCHDOG_EXIT = 86
 def main():
     variant, nthreads = sys.argv[1], int(sys.argv[2])
     B.boot_basilisp()
-    faulthandler.dump_traceback_later(8, exit=True)
+    faulthandler.dump_traceback_later(30, exit=True)
     from basilisp.lang import seq as lseq
     from checks import common
     cons, map_, first, rest, seq, count = (common.core_fn(n) for n in ("cons", "map", "first", "rest", "seq", "count"))
